@@ -74,7 +74,7 @@ type Scenario struct {
 
 // ReqClose: see Scenario.ReqClose.
 type ReqClose struct {
-	Kind  string `json:"kind"`  // stream | session | server
+	Kind  string `json:"kind"`  // stream | session | server | conn (ServerConn.Close of the connection that carried the request)
 	CB    string `json:"cb"`    // describe | announce | setup | play | record | pause
 	Nth   int    `json:"nth"`   // the n-th callback of that kind (1-based)
 	Async bool   `json:"async"` // from a goroutine started in the callback (always for server) instead of synchronously
@@ -82,7 +82,7 @@ type ReqClose struct {
 
 // CBClose: see Scenario.CBClose.
 type CBClose struct {
-	Kind string `json:"kind"` // session (ServerSession.Close) | server (Server.Close) | client (Client.Close of the reader)
+	Kind string `json:"kind"` // session (ServerSession.Close) | server (Server.Close) | client (Client.Close of the reader) | conn (ServerConn.Close of the session's control connection)
 	Seq  int    `json:"seq"`
 	Spin int    `json:"spin"`
 	// Swap: publishers write packets Seq and Seq+1 in swapped order, so that over UDP the
@@ -186,7 +186,7 @@ func gen(seed uint64, tier string) Scenario {
 		}
 	}
 	if x := core.HS(seed, "c13.reqclose", "", 0); x%100 < 25 {
-		rc := &ReqClose{Kind: []string{"stream", "stream", "session", "server"}[(x>>8)%4],
+		rc := &ReqClose{Kind: []string{"stream", "stream", "session", "server", "conn"}[(x>>8)%5],
 			CB:  []string{"setup", "setup", "play", "describe", "record", "pause", "announce"}[(x>>16)%7],
 			Nth: 1 + int((x>>24)%4), Async: (x>>32)%3 == 0}
 		if rc.Kind == "server" {
@@ -198,7 +198,7 @@ func gen(seed uint64, tier string) Scenario {
 		sc.SimLocks = true
 	}
 	if x := core.HS(seed, "c13.cbclose", "", 0); x%100 < 30 {
-		sc.CBClose = &CBClose{Kind: []string{"session", "server", "client"}[(x>>8)%3], Seq: 2 + int((x>>16)%12),
+		sc.CBClose = &CBClose{Kind: []string{"session", "server", "client", "conn"}[(x>>8)%4], Seq: 2 + int((x>>16)%12),
 			Spin: []int{1, 4, 32, 256}[(x>>24)%4], Swap: (x>>32)%3 != 0}
 	}
 	if r.Bool(0.75) {
@@ -360,9 +360,21 @@ func run(t *testing.T, sc Scenario) *core.Result {
 			if cb := sc.CBClose; cb != nil && cb.Kind != "client" && int(pkt.SequenceNumber) == cb.Seq && cbFired.CompareAndSwap(false, true) {
 				w.Probe("close_inside_packet_callback")
 				w.Log.Add("srv", "cbclose", "%s seq=%d spin=%d", cb.Kind, cb.Seq, cb.Spin)
-				if cb.Kind == "session" {
+				switch cb.Kind {
+				case "session":
 					w.Go("cbcloser", func() { ss.Close() })
-				} else {
+				case "conn":
+					// the application closes the control connection of the publishing session
+					var sconn *gortsplib.ServerConn
+					for _, c := range h.Callbacks() {
+						if c.Session == ss && c.Conn != nil {
+							sconn = c.Conn
+						}
+					}
+					if sconn != nil {
+						w.Go("cbcloser", func() { sconn.Close() })
+					}
+				default:
 					w.Go("cbcloser", func() { closeServerFn("in-callback") })
 				}
 				spin()
@@ -461,6 +473,10 @@ func run(t *testing.T, sc Scenario) *core.Result {
 						}
 					case "server":
 						closeServer("in-request-callback")
+					case "conn":
+						if cb.Conn != nil {
+							cb.Conn.Close()
+						}
 					}
 				}
 				if rc.Async {
